@@ -268,7 +268,10 @@ CapIdx == LET g == IF GwDist6 < 0 THEN 0 ELSE GwDist6 IN (Max(g, 1000000) + 5000
 CapInc(i) == IF Caplay = i /\ GwDist6 < 21000000 /\ GwDist6 > 900000 /\ CapIdx \in 1..20 THEN Cfg.CAPS[CapIdx] ELSE 0
 C06_Lower == AfterSubWater => \A i \in Layers : Wat.WG1[i] >= Min(Eva.WG0[i], Third(Eva.WMIN[i])) - 2 * TolTheta
 C06_Upper == AfterSubWater => \A i \in Layers : Wat.WG1[i] <= Eva.W[i] + CapInc(i) + 2 * TolTheta
-C06_All == Finite /\ C06_Lower /\ C06_Upper
+\* ... and a volumetric water content stays below 1 cm3/cm3 whatever the parameters in use say (valid soils: pore volume
+\* plus the largest capillary increment of the table is far below 1)
+C06_BelowOne == AfterSubWater => \A i \in Layers : Wat.WG1[i] < 1000000000
+C06_All == Finite /\ C06_Lower /\ C06_Upper /\ C06_BelowOne
 
 \* =============================================================================================
 \* C08  actual ET <= potential ET <= cap; uptake only from rooted layers above the groundwater table
